@@ -774,3 +774,62 @@ Proof.
 Qed.
 Lemma const_tools_blind v p t : tools_blind (mkWScript v p (fun _ => t)).
 Proof. intros w c. reflexivity. Qed.
+
+(* ---- after the fix: what rip hands to tool subprocesses holds no credential variable --------------------------- *)
+Lemma str_eqb_refl a : str_eqb a a = true.
+Proof. apply str_eqb_eq. reflexivity. Qed.
+
+Lemma getenv_filter_out (P : str -> bool) e k :
+  P k = false -> getenv (filter (fun kv => P (fst kv)) e) k = None.
+Proof.
+  intros PK. induction e as [|[n v] e IH]; [reflexivity|].
+  cbn [filter fst]. destruct (P n) eqn:PN; [|exact IH].
+  cbn [getenv]. destruct (str_eqb n k) eqn:E; [|exact IH].
+  apply str_eqb_eq in E. subst n. congruence.
+Qed.
+
+Theorem tool_env_has_no_credential_variable : forall w k,
+  In k (secret_env_names w) -> getenv (tool_env w) k = None.
+Proof.
+  intros w k I. unfold tool_env. apply (getenv_filter_out (fun n => negb (is_secret_env w n))).
+  unfold is_secret_env. apply negb_false_iff. apply existsb_exists. exists k. split; [exact I | apply str_eqb_refl].
+Qed.
+
+Lemma envref_in_secret_names w id p n :
+  In (id, p) (c_providers (load_config w)) -> pa_key p = Some (KEnvRef n) -> In n (secret_env_names w).
+Proof.
+  intros I K. unfold secret_env_names. apply in_or_app. right. unfold envref_names. apply in_flat_map.
+  exists (id, p). split; [exact I|]. cbn [snd]. rewrite K. left. reflexivity.
+Qed.
+
+(* tools that are functions of the call and of the environment rip hands them: worlds that differ only in secret values
+   (inline keys, header values, the values of credential variables) store and show the same *)
+Theorem noninterference_env_tools : forall fuel v p (t : env -> tcall -> list str * str) thread w1 w2 prompt initial,
+  low_world w1 = low_world w2 ->
+  tool_env w1 = tool_env w2 ->
+  persisted (run_w fuel (mkWScript v p (fun w => t (tool_env w))) thread w1 prompt initial)
+  = persisted (run_w fuel (mkWScript v p (fun w => t (tool_env w))) thread w2 prompt initial)
+  /\ doctor w1 = doctor w2.
+Proof.
+  intros fuel v p t thread w1 w2 prompt initial L T.
+  unfold run_w, inst. cbn [ws_validate ws_prov ws_tools]. rewrite T.
+  apply noninterference. exact L.
+Qed.
+
+(* non-vacuity: the B1 witness worlds get the same tool environment, and `printenv RIP_OPENRESPONSES_API_KEY` prints nothing;
+   a `{ "env": NAME }` key source is removed too *)
+Lemma leak_world_tool_env :
+  tool_env (leak_world (lit "sk-AAAA")) = tool_env (leak_world (lit "sk-BBBB"))
+  /\ tool_env (leak_world (lit "sk-AAAA")) = [(E_ENDPOINT, lit "http://127.0.0.1:9/v1/responses")].
+Proof. vm_compute. split; reflexivity. Qed.
+Definition fixed_script : wscript :=
+  mkWScript (ws_validate leak_script) (ws_prov leak_script) (fun w => printenv_tool_fixed (tool_env w)).
+Lemma fixed_tool_events :
+  tool_events (fst (persisted (run_w 10 fixed_script false (leak_world (lit "sk-AAAA")) (lit "probe") []))) = [[]].
+Proof. vm_compute. reflexivity. Qed.
+Definition envref_world (key : str) : world :=
+  mkWorld [mkLayer [(lit "acme", mkPatch (Some (lit "http://127.0.0.1:9/v1/responses")) (Some (KEnvRef (lit "MY_PROVIDER_KEY"))) [])]
+                   (Some (lit "acme/m1")) None None None None]
+          [(lit "HOME", lit "/home/u"); (lit "MY_PROVIDER_KEY", key)] no_ovr None.
+Lemma envref_world_tool_env : tool_env (envref_world (lit "sk-AAAA")) = [(lit "HOME", lit "/home/u")].
+Proof. vm_compute. reflexivity. Qed.
